@@ -3,7 +3,9 @@
 `#[builder(..)]` attributes in gds21/src/data.rs), per-element step predicates typed from the GDSII grammar
 (which record sets which field), and the extraction directives for GdsParser's routines.
 Run once by hand after editing the tables; the generated template is committed."""
-import os
+import os, sys
+sys.path.insert(0, os.path.dirname(os.path.abspath(__file__)))
+import gen_parse_ext
 V = os.path.dirname(os.path.dirname(os.path.abspath(__file__)))
 
 # struct -> [(field, type, kind)]   kind: 'req' (required), 'opt' (Option<U>, default None; setter takes U), 'vec' (Vec, default empty)
@@ -204,6 +206,7 @@ global size_of usize == 8;
 //@ include units/gds_codec/spec.inc.rs
 //@ include units/gds_codec/points.inc.rs
 //@ include units/gds_codec/reader.inc.rs
+//@ include units/gds_codec/lemmas.inc.rs
 //@ include units/gds_tree/tree.inc.rs
 
 // =====================================================================================================
@@ -234,12 +237,13 @@ def main():
     out.append(open(os.path.join(V, 'units', 'gds_parse', 'parser_core.rs')).read())
     for fn, (struct, arms) in ELEMS.items():
         out.append(step_pred(fn, struct, arms))
-        out.append(fold_built(fn, struct))
+        out.append(gen_parse_ext.fold_built(fn, struct, STRUCTS))
     out.append('impl GdsParser {')
     for fn, (struct, arms) in ELEMS.items():
-        out.append(elem_directive(fn, struct))
+        out.append(gen_parse_ext.elem_directive(fn, struct, STRUCTS, arm_proof(fn, struct, ELEMS[fn][1])))
     out.append(open(os.path.join(V, 'units', 'gds_parse', 'parser_top.rs')).read())
     out.append('}')
+    out.append('//@ include units/gds_parse/inversion.inc.rs')
     out.append('proof fn canary_pwf(p: GdsParser) requires pwf(p), p.numread == 3 ensures false {}')
     out.append('}\nfn main() {}\n')
     open(os.path.join(V, 'units', 'gds_parse', 'unit.rs'), 'w').write('\n'.join(out))
